@@ -36,7 +36,7 @@ def menus(cls):
     )
     if cls == 'C':
         m['path'] = ['spiral']
-        m['dtheta'] = [math.pi / 3]
+        m['dtheta'] = [math.pi / 3, -math.pi / 5]      # both senses of rotation
     return m
 
 
